@@ -72,7 +72,7 @@ Lemma cee_marshal_ok cp settings :
   blen settings + 4 < 65536 -> cee_marshal cp settings [] = Ok (typeEncryptedExtensions :: enc_u24lp (enc_u16lp (cee_exts cp settings []))).
 Proof.
   intros H. unfold cee_marshal. rewrite blen_nil. change (65536 <=? 0) with false.
-  destruct (N.leb_spec 65536 (blen settings)) as [H1|H1]; [lia|]. cbn [orb].
+  destruct (N.leb_spec 65536 (blen settings)) as [H1|H1]; [lia|]. rewrite andb_false_r. cbn [orb].
   assert (L : blen (cee_exts cp settings []) < 65536).
   { unfold cee_exts. cbn [is_empty]. rewrite app_nil_r. destruct (cp =? 0).
     - rewrite blen_nil. lia.
@@ -84,8 +84,8 @@ Theorem cee_roundtrip cp settings msg :
   cp = 0 \/ alps_cp cp -> cee_marshal cp settings [] = Ok msg ->
   cee_unmarshal msg = Ok (Some {| ee_codepoint := cp; ee_settings := if cp =? 0 then [] else settings |}).
 Proof.
-  intros Hcp. unfold cee_marshal. rewrite blen_nil. change (65536 <=? 0) with false.
-  destruct (N.leb_spec 65536 (blen settings)) as [H1|H1]; cbn [orb]; [discriminate|].
+  intros Hcp. unfold cee_marshal. rewrite blen_nil. change (65536 <=? 0) with false. rewrite orb_false_r.
+  destruct (negb (cp =? 0) && (65536 <=? blen settings)); [discriminate|].
   destruct (N.leb_spec 65536 (blen (cee_exts cp settings []))) as [H3|H3]; [discriminate|].
   intros E. injection E as <-.
   unfold cee_unmarshal, enc_u24lp. rewrite cb_skip4_hdr. cbn [bind].
@@ -108,7 +108,7 @@ Qed.
 Lemma cee_custom_not_roundtrip custom msg :
   custom <> [] -> cee_marshal 0 [] custom = Ok msg -> cee_unmarshal msg = Ok None.
 Proof.
-  intros Hne. unfold cee_marshal. rewrite blen_nil. change (65536 <=? 0) with false.
+  intros Hne. unfold cee_marshal. rewrite blen_nil. change (65536 <=? 0) with false. cbn [N.eqb negb andb].
   destruct (N.leb_spec 65536 (blen custom)) as [H1|H1]; cbn [orb]; [discriminate|].
   destruct (N.leb_spec 65536 (blen (cee_exts 0 [] custom))) as [H3|H3]; [discriminate|].
   intros E. injection E as <-.
